@@ -18,14 +18,25 @@ L2 model: one step per shared-memory access of the C text.
 * `___cds_wfs_pop_all`: `popAll` = `uatomic_xchg(&s->head, CDS_WFS_END)`.
 * `cds_wfs_first/next_{blocking,nonblocking}` over a popped head: `iterNext`.
 * `cds_wfs_empty`: `empty`.
-* synchronisation schemes (`Cfg.scheme`): `mutex` = the stack's internal mutex
-  (`cds_wfs_pop_lock/unlock`, taken by `cds_wfs_pop_blocking`/`cds_wfs_pop_all_blocking`),
-  `single` = one consumer thread.  `pop`/`pop_all` need the *right* (`hasRight`).
-* nodes are `Nat` ≠ 0 (NULL), ≠ `END`; a node is recycled (`free`) as soon as its popper owns it:
-  after a successful pop, or after the iterator of a popped list has read its `next`.
+* synchronisation schemes (`Cfg.scheme`, the three techniques of the header's synchronisation
+  table): `mutex` = the stack's internal mutex (`cds_wfs_pop_lock/unlock`, taken by
+  `cds_wfs_pop_blocking`/`cds_wfs_pop_all_blocking`), `single` = one consumer thread, `rcu` =
+  technique 1: any number of concurrent callers of `__cds_wfs_pop_*`, each inside an RCU read-side
+  critical section (`rlock` … `runlock`), no mutex; `__cds_wfs_pop_all` needs no section; a node
+  handed out by pop or by the iteration over a pop_all list is `retired` and may be recycled
+  (`reclaim`: freed / re-initialised / re-pushed) only after a grace period that started after it
+  was handed out.  The grace period is abstract (`Spec.GpSpec`, as in `Lfs/Model.lean`,
+  `Poll/Model.lean`): `gpStart` stamps the logical clock, `gpEnd` is enabled only when every
+  section that began before the start has ended.  `pop` needs `hasRight`, `pop_all`
+  `hasRightAll`.  `unprotected` (pops by anybody, immediate recycling) is **not** a configuration
+  of the API (`Cfg.WF` excludes it); it exists for the ABA witness `Wfs/Neg.lean`.
+* nodes are `Nat` ≠ 0 (NULL), ≠ `END`; under `mutex` / `single` a node is recycled (`free`) as
+  soon as its popper owns it: after a successful pop, or after the iterator of a popped list has
+  read its `next`.
 
 Ghost: abstract stack `abs`, per-thread popped list `priv`, node life cycle `nst`, history of
-linearisation events `hist` with the results computed from concrete memory.
+linearisation events `hist` with the results computed from concrete memory, logical clock,
+section begin times `cs`, grace-period stamps `gpCur` / `gpDone`.
 -/
 namespace UrcuVerif.Wfs
 open Lifo
@@ -35,13 +46,17 @@ def END : Nat := Gen.CDS_WFS_END
 
 theorem END_ne_zero : END ≠ 0 := by decide
 
-inductive Scheme | mutex | single
+inductive Scheme | mutex | single | rcu | unprotected
   deriving DecidableEq, Repr
 
 structure Cfg where
   scheme : Scheme
   consumer : Nat := 0
+  n : Nat := 8           -- number of threads that may open read-side sections (bounds `gpEnd`'s guard)
   deriving Repr
+
+/-- the configurations of the API (synchronisation techniques 1–3 of `urcu/wfstack.h`) -/
+def Cfg.WF (c : Cfg) : Prop := c.scheme ≠ .unprotected
 
 inductive Pc
   | idle
@@ -57,6 +72,7 @@ inductive NSt
   | own (t : Nat)
   | inStack
   | limbo (t : Nat)
+  | retired (stamp : Nat)
   deriving DecidableEq, Repr
 
 inductive Ret
@@ -80,11 +96,15 @@ structure State where
   priv : Nat → List Nat             -- ghost: remaining popped list of thread t
   nst  : Nat → NSt                  -- ghost: node life cycle
   hist : List Ev                    -- ghost: linearisation events, newest first
+  clock : Nat                       -- ghost: logical clock
+  cs    : Nat → Nat                 -- ghost: begin time of thread t's open read-side section (0 = none)
+  gpCur : Option Nat                -- ghost: start time of the grace period in flight
+  gpDone : Nat                      -- ghost: latest start time of a completed grace period
 
 def init : State :=
   { head := END, next := fun _ => 0, buf := fun _ => [], pc := fun _ => .idle, lock := none,
     cur := fun _ => END, ret := fun _ => .void, abs := [], priv := fun _ => [],
-    nst := fun _ => .free, hist := [] }
+    nst := fun _ => .free, hist := [], clock := 1, cs := fun _ => 0, gpCur := none, gpDone := 0 }
 
 def isNode (n : Nat) : Prop := n ≠ 0 ∧ n ≠ END
 instance (n : Nat) : Decidable (isNode n) := by unfold isNode; infer_instance
@@ -103,10 +123,22 @@ def rd (s : State) (t n : Nat) : Nat :=
   | some v => v
   | none => s.next n
 
-/-- the thread may call `__cds_wfs_pop*` / `__cds_wfs_pop_all` -/
+/-- the thread may call `__cds_wfs_pop*` (RCU scheme: it is inside a read-side section) -/
 def hasRight (c : Cfg) (s : State) (t : Nat) : Prop :=
-  (c.scheme = .mutex ∧ s.lock = some t) ∨ (c.scheme = .single ∧ t = c.consumer)
+  (c.scheme = .mutex ∧ s.lock = some t) ∨ (c.scheme = .single ∧ t = c.consumer) ∨
+  (c.scheme = .rcu ∧ s.cs t ≠ 0) ∨ c.scheme = .unprotected
 instance (c s t) : Decidable (hasRight c s t) := by unfold hasRight; infer_instance
+
+/-- the thread may call `__cds_wfs_pop_all` (no read-side section needed in the RCU scheme) -/
+def hasRightAll (c : Cfg) (s : State) (t : Nat) : Prop :=
+  (c.scheme = .mutex ∧ s.lock = some t) ∨ (c.scheme = .single ∧ t = c.consumer) ∨
+  c.scheme = .rcu ∨ c.scheme = .unprotected
+instance (c s t) : Decidable (hasRightAll c s t) := by unfold hasRightAll; infer_instance
+
+/-- life-cycle state of a node its popper is done with: recycled at once, or – RCU scheme –
+retired with the current time stamp until a later grace period has completed -/
+def released (c : Cfg) (s : State) : NSt :=
+  if c.scheme = .rcu then .retired s.clock else .free
 
 inductive Label
   | pushBegin (t n : Nat)
@@ -115,6 +147,11 @@ inductive Label
   | flush (t : Nat)
   | lock (t : Nat)
   | unlock (t : Nat)
+  | rlock (t : Nat)
+  | runlock (t : Nat)
+  | gpStart
+  | gpEnd
+  | reclaim (n : Nat)
   | empty (t : Nat)
   | popBegin (t : Nat) (b : Bool)
   | popLd (t : Nat)
@@ -158,6 +195,28 @@ def step (c : Cfg) (s : State) : Label → Option State
     if c.scheme = .mutex ∧ s.pc t = .idle ∧ s.lock = some t ∧ s.buf t = [] then
       some { s with lock := none }
     else none
+  | .rlock t =>
+    if s.pc t = .idle ∧ t < c.n ∧ s.cs t = 0 then
+      some { s with cs := upd s.cs t s.clock, clock := s.clock + 1 }
+    else none
+  | .runlock t =>
+    if s.pc t = .idle ∧ s.cs t ≠ 0 then some { s with cs := upd s.cs t 0 } else none
+  | .gpStart =>
+    match s.gpCur with
+    | none => some { s with gpCur := some s.clock, clock := s.clock + 1 }
+    | some _ => none
+  | .gpEnd =>
+    match s.gpCur with
+    | some a =>
+      -- GpSpec: every section that began before the grace period started has ended
+      if (∀ i, i < c.n → s.cs i ≠ 0 → a ≤ s.cs i) then
+        some { s with gpCur := none, gpDone := max s.gpDone a }
+      else none
+    | none => none
+  | .reclaim n =>
+    match s.nst n with
+    | .retired τ => if τ ≤ s.gpDone then some { s with nst := upd s.nst n .free } else none
+    | _ => none
   | .empty t =>
     if s.pc t = .idle then
       some { s with ret := upd s.ret t (.flag (s.head == END)),
@@ -185,7 +244,8 @@ def step (c : Cfg) (s : State) : Label → Option State
     | .popCas b h nx =>
       if s.buf t = [] then
         if s.head = h then
-          some { s with head := nx, abs := s.abs.tail, nst := upd s.nst h .free,
+          some { s with head := nx, abs := s.abs.tail, nst := upd s.nst h (released c s),
+                        clock := s.clock + 1,
                         pc := upd s.pc t .idle, ret := upd s.ret t (.node h (nx == END)),
                         hist := ⟨t, .pop, .popped (some h) (nx == END)⟩ :: s.hist }
         else if b then some { s with pc := upd s.pc t (.popLd b) }
@@ -193,7 +253,7 @@ def step (c : Cfg) (s : State) : Label → Option State
       else none
     | _ => none
   | .popAll t =>
-    if s.pc t = .idle ∧ hasRight c s t ∧ s.buf t = [] ∧ s.priv t = [] then
+    if s.pc t = .idle ∧ hasRightAll c s t ∧ s.buf t = [] ∧ s.priv t = [] then
       some { s with head := END, abs := [], priv := upd s.priv t s.abs, cur := upd s.cur t s.head,
                     nst := fun a => if a ∈ s.abs then .limbo t else s.nst a,
                     ret := upd s.ret t (if s.head = END then .null else .head s.head),
@@ -205,7 +265,7 @@ def step (c : Cfg) (s : State) : Label → Option State
         (if b then some s else some { s with ret := upd s.ret t .wouldblock })
       else
         some { s with cur := upd s.cur t (rd s t (s.cur t)), priv := upd s.priv t (s.priv t).tail,
-                      nst := upd s.nst (s.cur t) .free,
+                      nst := upd s.nst (s.cur t) (released c s), clock := s.clock + 1,
                       ret := upd s.ret t (if rd s t (s.cur t) = END then .null
                                           else .node (rd s t (s.cur t)) false) }
     else none
